@@ -607,12 +607,24 @@ class Run:
                 elif op == "loadbad":
                     self.do("team loadbad %d %d %d" % (d, s, rng.between(1, 1000)), "team", "load_fail")
                 else:
-                    ms = [rng.below(NM) for _ in range(3)]   # slots 0..NM-1 keep the standard size
+                    # team sizes: mostly the default 3, but also 1, 2 and long teams (the combination of the
+                    # members' signatures must keep EVERY member visible: 14+ members expose a lossy `combine`)
+                    tn = rng.choice([3, 3, 3, 1, 2, 4, 6, 8, 14, 16, 20, 33])
+                    ms = [rng.below(NM) for _ in range(tn)]   # slots 0..NM-1 keep the standard size
+                    self.chk.count("team_size:%d" % tn)
                     self.do("team fromvec %d %s" % (d, " ".join(str(x) for x in ms)), "team", "ctor_vector")
-                    if rng.chance(0.5):   # the same members in another order: a different team
-                        ms2 = ms[1:] + ms[:1] if rng.chance(0.5) else [ms[1], ms[0], ms[2]]
+                    if tn >= 2 and rng.chance(0.5):   # engineered: teams that differ in their FIRST member only
+                        ms1 = [(ms[0] + 1 + rng.below(NM - 1)) % NM] + ms[1:]
+                        self.do("team fromvec %d %s" % (b, " ".join(str(x) for x in ms1)), "team", "ctor_vector")
+                        self.chk.count("engineered:team_first_member")
+                    elif tn >= 3 and rng.chance(0.5):   # the same members in another order: a different team
+                        ms2 = ms[1:] + ms[:1] if rng.chance(0.5) else [ms[1], ms[0]] + ms[2:]
                         self.do("team fromvec %d %s" % (b, " ".join(str(x) for x in ms2)), "team", "ctor_vector")
                         self.chk.count("engineered:team_permutation")
+                    if tn != 3:   # the slots go back to the standard size: crossover Expects teams of one size
+                        for sl in (d, b):
+                            self.do("team fromvec %d %s" % (sl, " ".join(str(rng.below(NM)) for _ in range(3))),
+                                    "team", "ctor_vector")
 
     def upd(self, kind, slot, r):
         c = r["content"]
